@@ -163,6 +163,17 @@ def applyNormOrder (o : LoadOpts) (i : Id) (computed : List Id) : Except Err (Li
   | none => .ok computed
   | some (_, given) => if isPermOf given computed then .ok given else .error .assertion
 
+/-- one pass of `_revisions_in_cycles`: drop every revision none of whose down revisions remain -/
+def peelOnce (succ : Id → List Id) (remaining : List Id) : List Id :=
+  remaining.filter (fun r => (succ r).any (· ∈ remaining))
+
+/-- `_revisions_in_cycles`: peel until nothing changes (at most one pass per revision) -/
+def peel (succ : Id → List Id) : Nat → List Id → List Id
+  | 0, remaining => remaining
+  | fuel + 1, remaining =>
+    let next := peelOnce succ remaining
+    if next.length == remaining.length then remaining else peel succ fuel next
+
 /-- `_detect_cycles` -/
 def detectCycles (m : LMap) : Except Err Unit :=
   if m.revs.isEmpty then .ok ()
@@ -176,6 +187,8 @@ def detectCycles (m : LMap) : Except Err Unit :=
       let up := m.closure m.allDownOf m.realHeads
       let dn := m.closure m.allNextrev m.realBases
       if m.ids.any (fun i => ¬ (i ∈ up ∧ i ∈ dn)) then .error .depCycle
+      else if !(peel m.downOf m.ids.length m.ids).isEmpty then .error .cycle
+      else if !(peel m.allDownOf m.ids.length m.ids).isEmpty then .error .depCycle
       else .ok ()
 
 def isRealBranchPoint (m : LMap) (i : Id) : Bool := (m.allNextrev i).length > 1
